@@ -65,7 +65,9 @@ func runC16(c *core.Ctx) {
 				continue
 			}
 			l := core.ExprStr(as.Lhs[0])
-			if strings.HasSuffix(l, ".Parent") || strings.HasSuffix(l, `["Parent"]`) {
+			// (the key may be a named constant: node.dict[keyParent])
+			_, key, isMapKey := core.MapIndexKey(info, as.Lhs[0])
+			if strings.HasSuffix(l, ".Parent") || strings.HasSuffix(l, `["Parent"]`) || isMapKey && key == "Parent" {
 				sets = append(sets, v)
 				o.At(fn.Site(as, "sets /Parent"))
 			}
@@ -782,7 +784,7 @@ func rulePageTreeReaders(c *core.Ctx) {
 				o.FailAt(fn.Site(as, ""), "%s: an attribute of a /Pages node is recorded as inherited although the node may be a skipped sibling subtree (not dominated by skip < count)", c.Prog.Pos(as.Pos()))
 			}
 		}
-		o.Require(n >= 1, "GetPage does not collect inherited attributes")
+		o.Shape(n >= 1, "no store into a local attribute map was found in GetPage (the collected attributes are kept in another form)")
 	})
 	c.Check("C16-R5", pk+".(*Writer).NextPageNumber/queued", "the callback for the next page's number is only queued (or answered with -1 on a closed writer); it is never resolved before the page is appended", func(o *core.Ob) {
 		fn := c.Prog.Func(pk, "(*Writer).NextPageNumber")
